@@ -65,7 +65,7 @@ extern int mpt_queue_crop(MPT_STRUCT(queue) *queue, size_t pos, size_t len)
 	/* move data over segments */
 	if (high) {
 		uint8_t *src = ((uint8_t *) queue->base) + len - low;
-		if (low <= post) {
+		if (post <= low) {
 			memcpy(base, src, post);
 			ret = 1;
 		}
